@@ -199,6 +199,7 @@ def QuietStep (P : Env Val) (s : St Val) : Step → Prop
   | .detach => True
   | .attachObj => True
   | .detachObj => True
+  | .set _ => False
   | .construct _ => False
   | .copy => False
 
@@ -217,6 +218,7 @@ theorem step_quiet_phi (P : Env Val) (g : Heap → Val) (hp : PureGetter P.G g) 
   | detach => exact Nat.le_refl _
   | attachObj => exact Nat.le_refl _
   | detachObj => exact Nat.le_refl _
+  | set a => exact absurd hq (by simp [QuietStep])
   | construct ws => exact absurd hq (by simp [QuietStep])
   | copy => exact absurd hq (by simp [QuietStep])
 
@@ -243,6 +245,7 @@ instance (P : Env Val) (s : St Val) : (st : Step) → Decidable (QuietStep P s s
   | .detach => isTrue trivial
   | .attachObj => isTrue trivial
   | .detachObj => isTrue trivial
+  | .set _ => isFalse (fun h => h)
   | .construct _ => isFalse (fun h => h)
   | .copy => isFalse (fun h => h)
 
